@@ -19,6 +19,9 @@ ASSUMPTIONS = ["writer reuse: the cases of component `reuse` (every edit x secon
                "add lanelet+sign+light, remove an obstacle, translate the lanelet network, change a light offset, add a planning "
                "problem), write again with the SAME writer object (write_to_file or write_scenario_to_file) and compare the "
                "second file with Codec!WrittenBy(desc, reuse); sig suffix @reused-writer (C03: full files only)",
+               "reader reuse (route \"reader\"): one CommonRoadFileReader is bound to the path of write#1 and opened once (open / "
+               "open_lanelet_network), the edited scenario is written to the same path by a fresh writer (edit \"none\": nothing is "
+               "rewritten), the SAME reader opens again and must yield Codec!WrittenBy(desc, reuse); sig suffix @reused-reader",
                "ids: the pools use symbolic ids; Codec!Renumber materialises them with an id-order token (natural, lights_first, "
                "interleaved, lanelets_high, obstacles_low, pp_smallest, reversed): every token for stop lines referring to signs AND "
                "lights and for two-incoming intersections, in rotation over the other lanelet / sign / light / intersection "
